@@ -89,7 +89,7 @@ def run_shard(ctx):
     P = U.P
     ns = U.module.__dict__
     if f"{P}Bomb" not in ns:
-        exec(compile(PRELUDE_BOMB.replace("{P}", P), "<c16 bomb>", "exec"), ns)
+        exec(compile(PRELUDE_BOMB.replace("{P}", P), "<c16 bomb>", "exec", dont_inherit=True), ns)
     Holder, Bomb = ns[f"{P}Holder"], ns[f"{P}Bomb"]
     for i in range(O.N_SOURCES):
         O.source(i)
